@@ -89,6 +89,16 @@ def run(ck):
     ck.count(res["steps"], (json.dumps(h["hist"][-1]) + str(len(h["hist"])) for h in pk))
     if res3["stalled"]:
         ck.log("server level: %d behaviours did not reach the reference run's last segment within 5 s" % res3["stalled"])
+    # ---- playlist requests in flight while segments are completed ----------------------------------------------
+    of = os.path.join(ck.tmp, "c10_fresh.json")
+    ck.run_driver("./c10", "^TestHlsFresh$", {"VERIF_OUT": of}, timeout=1200)
+    resf = ck.read_result(of)
+    if resf["playlists_checked"] < 1000 or resf["polled_meanwhile"] < 10000:
+        raise Infra("vacuous freshness leg: %s" % {k: resf[k] for k in ("playlists_checked", "polled_meanwhile")})
+    ck.cov["freshness_leg"] = {k: resf[k] for k in ("playlists_checked", "polled_meanwhile")}
+    for f in resf["findings"][:3]:
+        kind = "listed-segment-does-not-resolve" if "does not resolve" in f["what"] else "playlist-served-beside-other-requests-is-not-the-current-one"
+        ck.violation("C10:%s:%s" % (kind, f["mode"]), "%s storage, after frame %d, token %r: %s" % (f["mode"], f["after_frame"], f["token"], f["what"]), f)
     seen = set()
     for b in bad:
         if b["why"] in seen:
